@@ -23,21 +23,27 @@ theorem scanRows_mono (ord : Nat) : ∀ (fxs : List Fx) (row : Nat) (st : ScanSt
       simp [scanRows] at h
   | cons fx tl ih =>
     intro row st
-    by_cases hv : cntAt st.cnt ord row ≠ 0
-    · have he : scanRows ord (fx :: tl) row st = .endMod { clampBpm st with rowCount := (clampBpm st).rowCount - 1 } row := by
-        rw [scanRows, if_pos hv]; rfl
+    by_cases hv : st.rowCountTotal > rowLimit ∨ cntAt st.cnt ord row ≠ 0
+    · obtain ⟨s', r0, he, hs1, hs2, _⟩ := scanRows_cons_stop ord fx tl row st hv
       constructor
       · intro st' o2 h; rw [he] at h; cases h
       · intro st' r' h
         rw [he] at h
         cases h
-        exact ⟨fun _ _ h => h, rfl⟩
-    · have hv0 : cntAt st.cnt ord row = 0 := by simpa using hv
+        exact ⟨fun o r h => by rw [hs1]; exact h, hs2⟩
+    · have hv0 : cntAt st.cnt ord row = 0 := by
+        by_cases h0 : cntAt st.cnt ord row = 0
+        · exact h0
+        · exact absurd (Or.inr h0) hv
+      have hg0 : st.rowCountTotal ≤ rowLimit := by
+        by_cases h0 : st.rowCountTotal > rowLimit
+        · exact absurd (Or.inl h0) hv
+        · omega
       have hstep : ∀ o r, cntAt st.cnt o r ≠ 0 → cntAt (visitStep ord row fx (clampBpm st)).cnt o r ≠ 0 := by
         intro o r hne
         exact (visitStep_cnt_facts ord row fx (clampBpm st)).2.2.1 o r hne
       have hctl : (visitStep ord row fx (clampBpm st)).ctl = st.ctl := by rw [visitStep_ctl]; rfl
-      have hf := scanRows_cons_fresh' ord fx tl row st hv0
+      have hf := scanRows_cons_fresh' ord fx tl row st hv0 hg0
       cases fx with
       | jump j =>
         simp only at hf
@@ -155,6 +161,10 @@ theorem recordInfo_fields (ep ord : Nat) (st : ScanSt) :
     (recordInfo ep ord st).anyValid = st.anyValid := by
   unfold recordInfo; simp only []
   split <;> (split <;> exact ⟨rfl, rfl, rfl, rfl, rfl, rfl, rfl⟩)
+
+theorem recordInfo_rct (ep ord : Nat) (st : ScanSt) : (recordInfo ep ord st).rowCountTotal = st.rowCountTotal := by
+  unfold recordInfo; simp only []
+  split <;> (split <;> rfl)
 
 theorem recordInfo_startTime (ep ord : Nat) (st : ScanSt) :
     (ord ≠ ep → (recordInfo ep ord st).startTime = st.startTime) ∧
@@ -304,6 +314,8 @@ structure ScanInvW (m : LinMod) (ep chain : Nat) (ctl0 : List Nat) (info0 : List
   infoU : ∀ o, cntAt st.cnt o 0 = 0 → st.info.getD o {} = info0.getD o {}
   /-- every scanned row lies in an order that holds a pattern and, outside the main sequence, was free -/
   visOrd : ∀ rec ∈ st.trace, isPlay m rec.ord ∧ (ep ≠ 0 → ctl0.getD rec.ord 0xff = 0xff)
+  /-- `row_count_total` is 0 at the top of the order loop: the runaway guard never fires -/
+  rct : st.rowCountTotal = 0
 
 theorem recordInfo_info (ep ord : Nat) (st : ScanSt) :
     (recordInfo ep ord st).info = st.info.set ord
@@ -422,7 +434,7 @@ theorem inv_pattern (m : LinMod) (ep chain : Nat) (ctl0 : List Nat) (info0 : Lis
     (st' : ScanSt)
     (hd : RowsDone o 0 fxs (recordInfo ep o { st with osv := k, ctl := c'.set o chain }) st') :
     ScanInv m ep chain ctl0 info0 o1
-      { st' with frameCount := st'.frameCount + st'.rowCount * st'.speed, rowCount := 0 } := by
+      { st' with frameCount := st'.frameCount + st'.rowCount * st'.speed, rowCount := 0, rowCountTotal := 0 } := by
   obtain ⟨st3, hst3⟩ : ∃ st3, st3 = recordInfo ep o { st with osv := k, ctl := c'.set o chain } := ⟨_, rfl⟩
   rw [← hst3] at hd
   have h3cnt : st3.cnt = st.cnt := by rw [hst3, recordInfo_cnt]
@@ -452,7 +464,7 @@ theorem inv_pattern (m : LinMod) (ep chain : Nat) (ctl0 : List Nat) (info0 : Lis
     rw [rowStart_of_rowCount0 st3 (by rw [f5]; exact hinv.rowCount)]
     unfold ScanSt.now; rw [f2, f3, f4]
   have hfreshAll : ∀ r, cntAt st.cnt o r = 0 := hinv.pre o hfresh0
-  refine ⟨⟨?_, ?_, ?_, ?_, ?_, ?_, ?_, ?_, ?_, ?_, ?_, ?_, ?_, ?_, ?_, ?_, ?_, ?_, ?_, ?_⟩, ?_, ?_, ?_, ?_⟩
+  refine ⟨⟨?_, ?_, ?_, ?_, ?_, ?_, ?_, ?_, ?_, ?_, ?_, ?_, ?_, ?_, ?_, ?_, ?_, ?_, ?_, ?_, rfl⟩, ?_, ?_, ?_, ?_⟩
   · show st'.cnt.length = m.len
     rw [hd.cntLen, h3cnt]; exact hinv.cntLen
   · intro o' ho'
@@ -637,7 +649,7 @@ theorem pend_pattern (m : LinMod) (ep chain : Nat) (ctl0 : List Nat) (info0 : Li
     (hnum : o = e.si.endOrd → e.si.endRow < pre.length + 1 → e.startEndPoint ≠ 0)
     (st' : ScanSt)
     (hd : RowsDone o 0 (pre ++ [last]) (recordInfo ep o { st with osv := k, ctl := c'.set o chain }) st') :
-    ∃ F' sP', Pend e s0 { st' with frameCount := st'.frameCount + st'.rowCount * st'.speed, rowCount := 0 }
+    ∃ F' sP', Pend e s0 { st' with frameCount := st'.frameCount + st'.rowCount * st'.speed, rowCount := 0, rowCountTotal := 0 }
       (nordAfter o last) F' sP' := by
   obtain ⟨st3, hst3⟩ : ∃ st3, st3 = recordInfo ep o { st with osv := k, ctl := c'.set o chain } := ⟨_, rfl⟩
   rw [← hst3] at hd
@@ -717,7 +729,8 @@ def SimEnd (e : PlayEnv) (s0 : PlaySt) (stF : ScanSt) (oF rF : Nat) (foreign : P
       (stF.info.getD rec.ord {}).timeX = rec.t0 ∧ (stF.info.getD rec.ord {}).time = (toMs rec.t0 : Int)) ∧
     ((info0.getD o1 {}).time < 0 → o1 < info0.length →
       (stF.info.getD o1 {}).speed = spd ∧ (stF.info.getD o1 {}).bpm = bpm ∧ 0 ≤ (stF.info.getD o1 {}).time) ∧
-    (∀ rec ∈ stF.trace, visOK rec)
+    (∀ rec ∈ stF.trace, visOK rec) ∧
+    stF.rowCountTotal = 0
 
 theorem sim_finish (m : LinMod) (ep chain : Nat) (ctl0 : List Nat) (info0 : List OrdInfo) (e : PlayEnv) (o1 : Nat) (stF : ScanSt) (oF rF : Nat)
     (H : SimHyp m ep chain ctl0 e o1 stF oF rF) (s0 : PlaySt) (st : ScanSt) (hinv : ScanInv m ep chain ctl0 info0 o1 st)
@@ -746,7 +759,7 @@ theorem sim_finish (m : LinMod) (ep chain : Nat) (ctl0 : List Nat) (info0 : List
     · have := hinv.vis o 0 hv
       rw [c2 (by rw [H.eord, hoF]; omega), hnum]; omega
   have hlc := render_end e p0 q3 (by rw [q1, H.eord, hoF]) (by rw [q2, H.erow, hrF]) hE
-  refine ⟨F, p0, hrun0, ?_, ?_, by rw [q1, hoF], q2, q3, by rw [hlc, q9, hp.loopCount], hrS, ?_, ?_, ?_, ?_, ?_, ?_⟩
+  refine ⟨F, p0, hrun0, ?_, ?_, by rw [q1, hoF], q2, q3, by rw [hlc, q9, hp.loopCount], hrS, ?_, ?_, ?_, ?_, ?_, ?_, ?_⟩
   · rw [hp.recs, hstF]
   · rw [hp.tk, hstF]
     show st.now = st.time - st.startTime + (st.frameCount + st.rowCount * st.speed) * tick st.bpm
@@ -775,6 +788,7 @@ theorem sim_finish (m : LinMod) (ep chain : Nat) (ctl0 : List Nat) (info0 : List
   · rw [hstF]; exact hinv.infoT
   · rw [hstF]; exact hinv.infoO1
   · rw [hstF]; exact hinv.visOrd
+  · rw [hstF]; exact hinv.rct
 
 theorem procValid_done (m : LinMod) (ep chain fuel o : Nat) (st1 : ScanSt) (stF : ScanSt) (oF rF : Nat)
     (h : procValid m ep chain fuel o st1 = .finished stF oF rF)
@@ -824,6 +838,11 @@ theorem sim_step_pattern (m : LinMod) (ep chain : Nat) (ctl0 : List Nat) (info0 
     (by rw [f2]; exact hinv.bpm)
     (by rw [h3cnt, hinv.cntLen]; exact ho.1)
     (by rw [h3cnt, hinv.rowLen o ho, hlenrows]; omega)
+    (by
+      have h1 : st3.rowCountTotal = 0 := by rw [hst3, recordInfo_rct]; exact hinv.rct
+      have h2 := H.wf.rowsLe _ hmem
+      rw [h1, hlenrows] at *
+      unfold rowLimit; omega)
   rw [← hrows] at hscan
   unfold procValid at hfin
   rw [if_neg hchk, if_neg (by show ¬ cntAt st.cnt o 0 ≠ 0; rw [hfresh0]; simp)] at hfin
@@ -977,7 +996,7 @@ theorem sim_scanOrders (m : LinMod) (ep chain : Nat) (ctl0 : List Nat) (info0 : 
   have h0ctl : st0.ctl = ctl0 := by rw [hst0]; rfl
   have h0now : st0.now = 0 := by rw [hst0]; simp [scanInit, ScanSt.now]
   have hinv0 : ScanInvW m ep chain ctl0 info0 o1 st0 := by
-    refine ⟨?_, ?_, ?_, ?_, ?_, ?_, ?_, ?_, ?_, ?_, ?_, ?_, ?_, ?_, ?_, ?_, ?_, ?_, ?_, ?_⟩
+    refine ⟨?_, ?_, ?_, ?_, ?_, ?_, ?_, ?_, ?_, ?_, ?_, ?_, ?_, ?_, ?_, ?_, ?_, ?_, ?_, ?_, by rw [hst0]; rfl⟩
     · rw [h0cnt]; exact (initCnt_inv m).1
     · intro o ho; rw [h0cnt]; exact initCnt_rowLen m o ho (H.wf.rows _ (rowsOf_mem m o ho))
     · intro o _ r; rw [h0cnt]; exact cntAt_initCnt m o r
@@ -1103,7 +1122,8 @@ theorem scanModule_accepted (m : LinMod) (ep chain : Nat) (ctl0 : List Nat) (inf
       (scanModule m ep chain ctl0 info0).info = stF.info ∧
       (scanModule m ep chain ctl0 info0).trace = stF.trace.reverse ∧
       (scanModule m ep chain ctl0 info0).durX =
-        stF.time - stF.startTime + (stF.frameCount + stF.rowCount * stF.speed) * tick stF.bpm := by
+        stF.time - stF.startTime + (stF.frameCount + stF.rowCount * stF.speed) * tick stF.bpm ∧
+      (scanModule m ep chain ctl0 info0).rowTotal = stF.rowCountTotal := by
   unfold scanModule at hacc ⊢
   simp only [] at hacc ⊢
   show ∃ stF oF rS, scanOrders m ep chain (scanFuel m) ep (scanInit m ctl0 info0) = .finished stF oF rS ∧ _
@@ -1120,7 +1140,7 @@ theorem scanModule_accepted (m : LinMod) (ep chain : Nat) (ctl0 : List Nat) (inf
     | true =>
       refine ⟨st, ord, row0, rfl, hav, ?_⟩
       simp only [Bool.not_true, Bool.false_eq_true, if_false]
-      exact ⟨trivial, trivial, trivial, trivial, trivial, trivial, trivial⟩
+      exact ⟨trivial, trivial, trivial, trivial, trivial, trivial, trivial, trivial⟩
 
 /-! ## `PlaySt.time` is the running Σ frame_time -/
 
@@ -1259,8 +1279,10 @@ theorem sim_sequence (m : LinMod) (ep chain : Nat) (ctl0 : List Nat) (info0 : Li
       (∀ rec ∈ (scanModule m ep chain ctl0 info0).trace, rec.row = 0 → (info0.getD rec.ord {}).time < 0 →
         rec.ord < info0.length →
         ((scanModule m ep chain ctl0 info0).info.getD rec.ord {}).timeX = rec.t0 ∧
-        ((scanModule m ep chain ctl0 info0).info.getD rec.ord {}).time = (toMs rec.t0 : Int)) := by
-  obtain ⟨stF, oF, rS, hscan, hav, r1, r2, r3, r4, r5, r6, r7⟩ := scanModule_accepted m ep chain ctl0 info0 H.acc
+        ((scanModule m ep chain ctl0 info0).info.getD rec.ord {}).time = (toMs rec.t0 : Int)) ∧
+      -- the scan did not leave through the runaway guard (`row_count_total > row_limit`)
+      (scanModule m ep chain ctl0 info0).rowTotal = 0 := by
+  obtain ⟨stF, oF, rS, hscan, hav, r1, r2, r3, r4, r5, r6, r7, r8⟩ := scanModule_accepted m ep chain ctl0 info0 H.acc
   have hrE : rS = 0 → (scanModule m ep chain ctl0 info0).endRow = 0 := by
     intro h; rw [r2, h]; split <;> rfl
   have HS : SimHyp m ep chain ctl0 e o1 stF oF (scanModule m ep chain ctl0 info0).endRow := by
@@ -1271,7 +1293,7 @@ theorem sim_sequence (m : LinMod) (ep chain : Nat) (ctl0 : List Nat) (info0 : Li
     · rw [H.esi]
     · rw [H.esi]; exact r3
     · intro h; rw [← r4]; exact H.ectl h
-  obtain ⟨_, s0, hstart, F, pF, hrun, hrec, htk, e1, e2, e3, e4, e5, e6, e7, e8, e9, _, _⟩ :=
+  obtain ⟨_, s0, hstart, F, pF, hrun, hrec, htk, e1, e2, e3, e4, e5, e6, e7, e8, e9, _, _, e12⟩ :=
     sim_scanOrders m ep chain ctl0 info0 e o1 stF oF _ HS H.ctlLen H.einfo hav rS hrE hscan
   have hE0 := hrE e5
   have htrace : rowTrace F = (stF.trace.map posOf).reverse := by
@@ -1281,7 +1303,7 @@ theorem sim_sequence (m : LinMod) (ep chain : Nat) (ctl0 : List Nat) (info0 : Li
     rw [start_time e s0 hstart] at this
     exact this
   refine ⟨F, s0, pF, hstart, hrun, ?_, htimes, by rw [hrec, r6], by rw [htk, r7], runN_loop0 e _ _ _ _ hrun,
-    by rw [e1, r1], by rw [e2, hE0], hE0, e3, e4, by rw [htrace]; exact e7, ?_, ?_⟩
+    by rw [e1, r1], by rw [e2, hE0], hE0, e3, e4, by rw [htrace]; exact e7, ?_, ?_, by rw [r8]; exact e12⟩
   · intro fuel hf
     obtain ⟨k, hk⟩ : ∃ k, fuel = F.length + (k + 1) := ⟨fuel - F.length - 1, by omega⟩
     unfold PlayEnv.run
